@@ -296,6 +296,13 @@ class Ent(Engine):
         for st in STAT_SETTERS:
             ops += ['copy_stat 7 7 7 7 7 7 7 7 7 7 7 7 7 33188', 'stat', st, 'stat', 'clone', 'c:stat', 'reset']
         yield Case('statcache', ops)
+        # the same with dev and rdev already in their split (major/minor) representation when the cache is filled:
+        # the setters have a "switch representation" branch and a "representation already right" branch
+        ops = []
+        for st in STAT_SETTERS:
+            ops += ['copy_stat 7 7 7 7 7 7 7 7 7 7 7 7 7 33188', 'set_devmajor 8', 'set_devminor 1', 'set_rdevmajor 8',
+                    'set_rdevminor 1', 'stat', st, 'stat', 'clone', 'c:stat', 'reset']
+        yield Case('statcache-split', ops)
         # exhaustive small scope over the reduced alphabet; histories are separated by `reset` and batched per
         # process (one fork per first operation / per first two operations)
         if tier == 'quick':
